@@ -1,6 +1,6 @@
 (* Case runner for the docopt tail mirror. *)
 From Coq Require Import List String Ascii Bool NArith.
-From RashV Require Import Sexp Tail.
+From RashV Require Import Sexp Tail NormOpts.
 Import ListNotations.
 Open Scope string_scope. Open Scope list_scope.
 
@@ -47,6 +47,21 @@ Definition run_tail (e : sexp) : option sexp :=
                 | TVars v => SList [Atom "vars"; enc_jv v]
                 end)
       | _, _, _ => None
+      end
+  | _ => None
+  end.
+
+(* (normopts (opts ODESC...) (argv xHEX...)) : the mirror of Options::normalize_options *)
+Definition run_normopts (e : sexp) : option sexp :=
+  match e with
+  | SList [Atom "normopts"; SList (Atom "opts" :: os); SList (Atom "argv" :: av)] =>
+      match map_opt dec_odesc os, map_opt atom_bytes av with
+      | Some os, Some av =>
+          Some (match normalize_options os av with
+                | Some l => SList (Atom "some" :: map bytes_atom l)
+                | None => Atom "unknown-option"
+                end)
+      | _, _ => None
       end
   | _ => None
   end.
